@@ -174,6 +174,8 @@ pub struct LassoResult {
     pub final_footprint: usize,
     pub footprints: Vec<usize>,
     pub crawled: bool,
+    /// stopped early: the footprint passed four times the allowed bound
+    pub runaway: bool,
 }
 
 pub fn run_workload(w: &mut World, wl: &Workload, cap: usize, r: &mut Report, verbose: bool) -> Option<LassoResult> {
@@ -183,7 +185,7 @@ pub fn run_workload(w: &mut World, wl: &Workload, cap: usize, r: &mut Report, ve
     set_case(&case.to_string());
     let mut cheap_seen: HashSet<u64> = HashSet::new();
     let mut full_at: HashMap<u64, Vec<(usize, u64)>> = HashMap::new();
-    let mut res = LassoResult { rounds: 0, states: 0, recurrence: None, max_footprint: 0, final_footprint: 0, footprints: Vec::new(), crawled: false };
+    let mut res = LassoResult { rounds: 0, states: 0, recurrence: None, max_footprint: 0, final_footprint: 0, footprints: Vec::new(), crawled: false, runaway: false };
     let mut anchors: Vec<u64> = Vec::new();
     // the full state hash is taken in the first 64 rounds, in the 64 rounds after any round in which the
     // kernel was called (rounds without kernel calls in between differ only in the release_checks
@@ -221,6 +223,11 @@ pub fn run_workload(w: &mut World, wl: &Workload, cap: usize, r: &mut Report, ve
             return None;
         }
         res.footprints.push(w.k.footprint);
+        if w.k.peak_footprint > 4 * wl.bound() {
+            // far beyond anything the oracle allows: no point in (and no memory for) iterating further
+            res.runaway = true;
+            break;
+        }
         // fingerprint; addresses relative to a 64 KiB-aligned anchor (exact for policy T whose placement depends on absolute addresses)
         let anchor = if wl.policy == Policy::TopDown || w.k.regions.is_empty() { 0 } else { (w.k.regions[0].0 & !0xffff) as u64 };
         anchors.push(anchor);
@@ -298,11 +305,12 @@ pub fn judge(wl: &Workload, res: &LassoResult, cap: usize, r: &mut Report) {
             let q = n / 4;
             let max_before = res.footprints[..n - q].iter().copied().max().unwrap_or(0);
             let max_last = res.footprints[n - q..].iter().copied().max().unwrap_or(0);
-            if max_last > max_before {
+            if max_last > max_before || res.runaway {
                 r.outcome("no-recurrence:growing");
                 r.violation(
                     "C04:lasso:footprint-grows",
-                    format!("workload {case}: no state recurrence within {cap} rounds and the footprint after a round is still reaching new maxima ({max_before} -> {max_last} bytes); peak live bytes {}", wl.peak_live()),
+                    format!("workload {case}: no state recurrence within {} rounds{} and the footprint after a round is still reaching new maxima ({max_before} -> {max_last} bytes, peak {}); peak live bytes {}",
+                        res.rounds, if res.runaway { " (stopped: footprint passed 4 x the allowed bound)" } else { "" }, res.max_footprint, wl.peak_live()),
                     case.clone(),
                 );
             } else {
